@@ -3,6 +3,7 @@ package c07
 import (
 	"testing"
 
+	"verifharness/concw"
 	"verifharness/dbsim"
 	"verifharness/vkit"
 )
@@ -21,5 +22,14 @@ func TestVerif_Histories(t *testing.T) {
 	r.Assume("Next is called with monotonically newer snapshots, none older than the table revision at which the iterator was created", "iterators are kept reachable while open", "a deletion is identified by its revision window (revision before, revision after] of the deleting operation")
 	r.Require("change_stream_checks", "commits")
 	dbsim.BubbleCases(t, r, vkit.N(2000, 100000), opts, func(s *dbsim.Sim) bool { return s.ChangeChecks() >= 5 })
+	r.Finish()
+}
+
+// Real-time variant under the race detector with a 1 ms collection interval.
+func TestVerifRace_Consumers(t *testing.T) {
+	r := vkit.Start(t, "C07", "consumers-race", "exploration", "2-4 writers (inserts, deletes, 10% aborts) and 2-4 consumer goroutines with their own change iterators under the race detector, collector every 1 ms: "+
+		"strictly increasing revisions, replay == the snapshot passed to Next whenever it was drained, final convergence, blocked consumers woken by every later commit; non-trivial = changes were delivered; distinct = (seed, case)")
+	r.Require("changes_delivered", "drain_checks")
+	r.ParallelCases(vkit.N(12, 300), 2, func(i int) { concw.RunConsumers(r, i, false) })
 	r.Finish()
 }
